@@ -699,7 +699,9 @@ def stress(ctx):
     back (block sizes such as 1024, 4096, 8192 are crossed)."""
     biom = ctx.biom
     r = ctx.rng('stress')
-    for n, m in ((4097, 2), (8200, 1), (2, 4100), (1025, 3)):
+    extra = [(n_, 2) for n_ in gen.boundary_sizes(
+        r, 500, 9000, 2 if ctx.tier == 'quick' else 8)]
+    for n, m in [(4097, 2), (8200, 1), (2, 4100), (1025, 3)] + extra:
         rng = np.random.default_rng(r.randrange(2 ** 32))
         D = rng.integers(0, 4, size=(n, m)).astype(float)
         D[-1, -1] = 7.5
